@@ -49,7 +49,7 @@ def run(ctx):
     rng = ctx.rng
     cases, meta = [], []
     dist = {"family": {}, "nested": 0, "pairs": 0, "raise_mode": 0}
-    target = ctx.n(260, 5000)
+    target = ctx.n(600, 5000)
     while len(cases) < target:
         fam = rng.choice(["dag", "dag", "gated", "loop", "nested", "nested", "emit"])
         if fam == "nested":
